@@ -202,7 +202,22 @@ func checkC09(c CaseC09) (*vkit.Failure, vkit.Meta) {
 		refs := make([]*gkit.RefResult, n)
 		for i := 0; i < n; i++ {
 			refs[i] = gkit.Ref(c.Spec, "", fixInput(c.Spec, c.Inputs[i]), gkit.RefOpts{})
-			if baseClass(refs[i].Fail) == "toobig" {
+			big := baseClass(refs[i].Fail) == "toobig" || refs[i].MaxSize > 1<<13 || len(gkit.Canon(refs[i].Out)) > 1<<16
+			for _, e := range refs[i].Execs {
+				if len(e.In) > 1<<16 {
+					big = true
+				}
+			}
+			if baseClass(refs[i].Fail) == "merge" {
+				for _, pd := range c.Paradigms {
+					if pd != "invoke" {
+						// duplicate keys are only detected when values are merged; a streamed call merges chunk-wise, does not
+						// fail there, and - in a loop - may go on with values that double every step
+						big = true
+					}
+				}
+			}
+			if big {
 				// values that grow geometrically in a loop: the reference gave up, and the run itself would spend minutes
 				// rendering them - nothing is asserted (a slow case must not look like a stuck one)
 				m.Labels = append(m.Labels, "values-too-big-skipped")
